@@ -572,8 +572,12 @@ def verdict(mod, tier, seed, ba, streams, results, t0):
         "wall_s": round(time.time() - t0, 2),
         "violations": violations,
     }
-    os.makedirs(os.path.join(VERIF, "evidence"), exist_ok=True)
-    with open(os.path.join(VERIF, "evidence", prop + ".json"), "w") as f:
+    # runs against a scratch tree (seeded changes, mutation self-tests) must not overwrite the evidence of the real tree
+    evdir = os.environ.get("VERIF_EVIDENCE_DIR") or os.path.join(VERIF, "evidence")
+    if os.path.realpath(REPO) != os.path.realpath("/repo") and not os.environ.get("VERIF_EVIDENCE_DIR"):
+        evdir = os.path.join(VERIF, "replays", "evidence-of-other-trees")
+    os.makedirs(evdir, exist_ok=True)
+    with open(os.path.join(evdir, prop + ".json"), "w") as f:
         json.dump(ev, f, indent=1, default=str)
     for l in lines:
         print(l)
